@@ -261,15 +261,15 @@ def hexStringP : P Bytes := fun i =>
 def eqNoCase (a b : Bytes) : Bool := lowerBytes a == lowerBytes b
 
 def rrTypeOfStr (s : Bytes) : Option Nat :=
-  if eqNoCase s "A".toUTF8.toList then some TYPE_A
-  else if eqNoCase s "AAAA".toUTF8.toList then some TYPE_AAAA
-  else if eqNoCase s "NS".toUTF8.toList then some TYPE_NS
-  else if eqNoCase s "CNAME".toUTF8.toList then some TYPE_CNAME
-  else if eqNoCase s "PTR".toUTF8.toList then some TYPE_PTR
-  else if eqNoCase s "TXT".toUTF8.toList then some TYPE_TXT
-  else if eqNoCase s "MX".toUTF8.toList then some TYPE_MX
-  else if eqNoCase s "SOA".toUTF8.toList then some TYPE_SOA
-  else if eqNoCase s "DS".toUTF8.toList then some TYPE_DS
+  if eqNoCase s [65] then some TYPE_A
+  else if eqNoCase s [65, 65, 65, 65] then some TYPE_AAAA
+  else if eqNoCase s [78, 83] then some TYPE_NS
+  else if eqNoCase s [67, 78, 65, 77, 69] then some TYPE_CNAME
+  else if eqNoCase s [80, 84, 82] then some TYPE_PTR
+  else if eqNoCase s [84, 88, 84] then some TYPE_TXT
+  else if eqNoCase s [77, 88] then some TYPE_MX
+  else if eqNoCase s [83, 79, 65] then some TYPE_SOA
+  else if eqNoCase s [68, 83] then some TYPE_DS
   else none
 
 /-- `rr_common_parser` followed by the separating blanks -/
